@@ -78,6 +78,11 @@ def cases(tier, rng):
         n = rng.choice([4, 4, 5])
         vs, d, u = oracles.random_admg(rng, n, p_d=rng.choice([0.3, 0.5]), p_u=rng.choice([0.15, 0.3]))
         yield {"nodes": vs, "directed": d, "undirected": u, "k": rng.choice(ks), "policy": rng.choice(pol), "shuffle": rng.randrange(1 << 30)}
+    # an inclusion-minimal separator that is not a minimum one needs two parallel mediators behind a common cause: 5-6 nodes, sparse
+    for _ in range(2500 if tier == "quick" else 20000):
+        n = rng.choice([5, 5, 6])
+        vs, d, u = oracles.random_admg(rng, n, p_d=rng.choice([0.25, 0.35, 0.45]), p_u=rng.choice([0.0, 0.1]))
+        yield {"nodes": vs, "directed": d, "undirected": u, "k": rng.choice([None, None, 1, 2]), "policy": rng.choice(pol), "shuffle": rng.randrange(1 << 30)}
 
 
 def _eval(c):
